@@ -10,6 +10,18 @@
            the note sections / segments of the repository's test binaries → real library vs model, errors included
   stabs  : abstract stab records → Spec encoder → `.stab` section → StabSection.iter_stabs vs Spec and model; raw sizes
            that are not a multiple of 12
+  file   : (fourth wave) abstract ELF descriptions (C01's `ElfDesc`: tables and bodies anywhere, any sh_addralign / p_align)
+           holding 1..3 note sections, PT_NOTE headers over one section, over several sections laid end to end and over a
+           slice of a PROGBITS body → bytes by the Lean Spec assembler → `ELFFile(BytesIO(bytes)).get_section(i).iter_notes()`
+           / `.get_segment(j).iter_notes()` vs the observation the whole-file theorems prescribe (the hypotheses of
+           `file_section_notes_exact` / `file_segment_notes_exact` / `file_segment_notes_over_sections` are decided by the
+           driver on every case) and vs the file-level model (ELFFile mirror + notes mirror); sections / segments of other
+           classes (AttributeError) by correspondence
+  edge   : (fourth wave) the edge of the domain, again through whole files: a last note whose padding / descriptor / name runs past
+           the extent end (or a final note without padding ending exactly at the extent end and at EOF), a header the extent
+           promises but the file does not hold (ELFParseError), a name field without NUL (construct error) — vs the result the
+           theorems `last_note_past_extent_end`, `truncated_header_error`, `unterminated_name_error`,
+           `descriptor_cut_by_end_of_file` state, and vs the model
 """
 import io, os, glob
 from common import run_impl, canon, hx, rnd_uint, rnd_bytes, REPO
@@ -22,7 +34,15 @@ RULE = ('ast: cfg = (byte order, class, machine in 9 incl. the 16-bit-uid set, E
         '(stack size of native / foreign width, no-copy, x86 / aarch64 feature words, unknown types with 0..13 data bytes), '
         'prpsinfo, NT_FILE with 0..4 maps — optional 0..11 trailing bytes, extent at an arbitrary file offset; encoded by the Lean '
         'Spec encoder. raw: byte flips / size overrides of such extents, random extents, and all note sections and segments of '
-        'test/testfiles_for_unittests. stabs: 0..20 records. Non-trivial = distinct (cfg, notes, layout); '
+        'test/testfiles_for_unittests. stabs: 0..20 records. file: ElfDesc with null section, 0..2 filler sections, 1..3 SHT_NOTE '
+        'sections (each 0..5 notes as in ast, optional 0..11-byte tail), optional PROGBITS body holding an extent at an inner '
+        'offset, `.shstrtab` anywhere; PT_NOTE per note section, one over all note sections when laid end to end, one into the '
+        'PROGBITS body, PT_LOAD fillers; regions in random order with random gaps, sh_addralign / p_align from {0,1,4,8,16}, '
+        'entry sizes padded by 0/8; assembled by the Lean Spec assembler. edge: 0..3 well-formed notes followed by (bare) a last '
+        'note without padding + 0..20 more bytes with the extent ending anywhere from its header end to just before the next '
+        'header would fit, (trunc) 0..11 bytes then EOF with an extent claiming 12+ more, (nonul) a header with n_namesz 1..16 and '
+        'a NUL-free name field, complete or cut by EOF, (cut) a raw-kind note declaring 0..2^31 more descriptor bytes than '
+        'the file holds. Non-trivial = distinct (cfg, notes, layout); '
         'empty note lists are counted as trivial.')
 ASSUMPTIONS = ['io.BytesIO read/seek/tell semantics', 'bytes.decode("latin-1") is the code-point identity',
                'bytes.hex() is lower-case base 16',
@@ -449,10 +469,332 @@ def run_stabs(ctx):
             ctx.out.violation('correspondence', 'stabs', full, got=impl, model=r['model'])
 
 
+# ----------------------------------------------------------------------------- whole files (fourth wave)
+MCLASS = {'EM_386': 'EM_SPARC', 'EM_S390': 'EM_SPARC', 'EM_SPARC': 'EM_SPARC', 'EM_PPC64': 'default'}
+
+
+def Rec(**kw):
+    return {'r': [[k, v] for k, v in kw.items()]}
+
+
+def make_ast(rng, cfg, secs, segs, last=None, glue=()):
+    """An `ElfDesc` (JSON form of Driver/C01.lean) for `cfg`.
+    secs: dicts name(bytes) type body(bytes) [size] [flags] in section-table order (index 0 = null and a `.shstrtab`
+    are added; returns the index map); segs: dicts p_type p_offset/p_filesz or sec=<index into secs> [pre] [filesz].
+    `glue`: indices (into secs) of sections whose body follows the previous section's body immediately;
+    `last`: index (into secs) of the section whose body is the last region of the file."""
+    cls, le = cfg['cls'], cfg['le']
+    w = cls // 8
+    shsz, phsz, ehsize = (40, 32, 52) if cls == 32 else (64, 56, 64)
+    allsecs = [dict(name=b'', type=0, body=None, size=0, align=0)]
+    strpos = rng.randrange(1, len(secs) + 2)
+    idx = {}
+    for k, sc in enumerate(secs):
+        if len(allsecs) == strpos:
+            allsecs.append(dict(name=b'.shstrtab', type=3, body=None, align=1))
+        idx[k] = len(allsecs)
+        allsecs.append(dict(sc))
+    if len(allsecs) == strpos or not any(x['name'] == b'.shstrtab' for x in allsecs):
+        strpos = len(allsecs)
+        allsecs.append(dict(name=b'.shstrtab', type=3, body=None, align=1))
+    tab = bytearray(b'\0')
+    name_off = {b'': 0}
+    for sc in allsecs:
+        if sc['name'] not in name_off:
+            name_off[sc['name']] = len(tab)
+            tab += sc['name'] + b'\0'
+    allsecs[strpos]['body'] = bytes(tab)
+    shentsize = shsz + rng.choice([0, 0, 8])
+    phentsize = phsz + rng.choice([0, 0, 8])
+    # regions: groups of bodies (glued ones stay together), the two tables; `last` group at the end
+    groups = []
+    for k in range(len(secs)):
+        if k in glue and groups and groups[-1][-1] == idx[k - 1]:
+            groups[-1].append(idx[k])
+        else:
+            groups.append([idx[k]])
+    groups.append([strpos])
+    regions = [('body', g) for g in groups] + [('sh', None)] + ([('ph', None)] if segs else [])
+    rng.shuffle(regions)
+    if last is not None:
+        lastg = next(r for r in regions if r[0] == 'body' and idx[last] in r[1])
+        regions.remove(lastg)
+        regions.append(lastg)
+    pos = ehsize + rng.choice([0, 0, 4, 12])
+    shoff = phoff = 0
+    for kind, g in regions:
+        pos += rng.choice([0, 0, 0, 1, 3, 4, 8, 17])
+        if kind == 'sh':
+            shoff = pos
+            pos += shentsize * len(allsecs)
+        elif kind == 'ph':
+            phoff = pos
+            pos += phentsize * len(segs)
+        else:
+            for si in g:
+                allsecs[si]['offset'] = pos
+                pos += len(allsecs[si]['body'] or b'')
+    sections = []
+    for sc in allsecs:
+        body = sc.get('body')
+        size = sc['size'] if sc.get('size') is not None else len(body or b'')
+        sections.append({'name': hx(sc['name']), 'nameOff': name_off[sc['name']],
+                         'hdr': Rec(sh_type=sc['type'], sh_flags=sc.get('flags', rng.choice([0, 2, 3, 0x30])), sh_addr=rnd_uint(rng, 32),
+                                    sh_offset=sc.get('offset', 0), sh_size=size, sh_link=0, sh_info=0,
+                                    sh_addralign=sc.get('align', rng.choice([0, 1, 4, 8, 16])), sh_entsize=0),
+                         'body': hx(body) if body is not None else None})
+    segments = []
+    for sg in segs:
+        if 'sec' in sg:
+            sc = allsecs[idx[sg['sec']]]
+            off = sc['offset'] + sg.get('pre', 0)
+            fsz = sg['filesz'] if sg.get('filesz') is not None else (sc['size'] if sc.get('size') is not None else len(sc['body'] or b''))
+        else:
+            off, fsz = sg['p_offset'], sg['p_filesz']
+        f = dict(p_type=sg['p_type'], p_offset=off, p_vaddr=rnd_uint(rng, 32), p_paddr=rnd_uint(rng, 32), p_filesz=fsz,
+                 p_memsz=rng.choice([fsz, 0, fsz + 4, rnd_uint(rng, 32)]) % (1 << 32), p_flags=rng.choice([4, 5, 6]),
+                 p_align=sg.get('align', rng.choice([0, 1, 4, 8, 16])))
+        order = (['p_type', 'p_offset', 'p_vaddr', 'p_paddr', 'p_filesz', 'p_memsz', 'p_flags', 'p_align'] if cls == 32 else
+                 ['p_type', 'p_flags', 'p_offset', 'p_vaddr', 'p_paddr', 'p_filesz', 'p_memsz', 'p_align'])
+        segments.append({'r': [[k, f[k]] for k in order]})
+    ast = {'cls': cls, 'le': le, 'mclass': MCLASS.get(cfg['machine'], cfg['machine']), 'solaris': False, 'core': cfg['core'],
+           'ehdr': Rec(EI_VERSION=1, EI_OSABI=0, EI_ABIVERSION=0, e_type=cfg['e_type'], e_machine=cfg['e_machine'], e_version=1,
+                       e_entry=0, e_flags=0, e_ehsize=ehsize),
+           'shoff': shoff, 'phoff': phoff if segs else 0, 'shentsize': shentsize, 'phentsize': phentsize if segs else 0,
+           'sections': sections, 'segments': segments, 'shstrndx': strpos}
+    return ast, idx
+
+
+def impl_file(data, kind, n):
+    """`ELFFile(BytesIO(data)).get_section(n).iter_notes()` / `.get_segment(n).iter_notes()`, drained."""
+    from elftools.elf.elffile import ELFFile
+
+    def f():
+        ef = ELFFile(io.BytesIO(data))
+        obj = ef.get_section(n) if kind == 'sec' else ef.get_segment(n)
+        prewalk(obj, data)
+        return canon_notes(obj.iter_notes())
+    return run_impl(f)
+
+
+def gen_wf_notes(rng, cfg, choices=(0, 1, 1, 2, 3, 5)):
+    bad = rng.random() < 0.08
+    return [gen_note(rng, cfg, allow_bad=bad) for _ in range(rng.choice(choices))]
+
+
+def run_file(ctx):
+    rng = ctx.rng('file')
+    n = ctx.budget(260, 9000)
+    cases = []
+    for _ in range(n):
+        cfg = gen_cfg(rng)
+        k = rng.choice([1, 1, 2, 3])
+        glued = k > 1 and rng.random() < 0.6
+        lists = []
+        for t in range(k):
+            notes = gen_wf_notes(rng, cfg)
+            tail = b''
+            if rng.random() < 0.25 and not (glued and t < k - 1 and rng.random() < 0.85):
+                tail = rnd_bytes(rng, rng.choice([1, 3, 4, 7, 8, 11]))
+            lists.append({'notes': notes, 'tail': hx(tail)})
+        inner = {'notes': gen_wf_notes(rng, cfg, (1, 2, 3)), 'tail': hx(rnd_bytes(rng, rng.choice([0, 0, 5])))} if rng.random() < 0.35 else None
+        cases.append({'cfg': cfg, 'lists': lists, 'glued': glued, 'inner': inner})
+    # phase 1: the extents (Spec encoder)
+    reqs, where = [], []
+    for ci, c in enumerate(cases):
+        for li, l in enumerate(c['lists'] + ([c['inner']] if c['inner'] else [])):
+            reqs.append({'p': 'C14', 'k': 'enc', 'cfg': lean_cfg(c['cfg']), 'notes': l['notes'], 'tail': l['tail']})
+            where.append((ci, li))
+    encs = ask_all(ctx, reqs)
+    for (ci, li), rq, e in zip(where, reqs, encs):
+        fatal(e, rq)
+        cases[ci].setdefault('enc', {})[li] = bytes.fromhex(e['bytes'])
+    # phase 2: the descriptions
+    freqs = []
+    for c in cases:
+        cfg, k = c['cfg'], len(c['lists'])
+        secs, qs = [], []
+        for _ in range(rng.choice([0, 0, 1, 2])):
+            secs.append(dict(name=rng.choice([b'.text', b'.data', b'.fill']), type=1, body=rnd_bytes(rng, rng.choice([1, 5, 16, 33]))))
+        first = len(secs)
+        for t in range(k):
+            secs.append(dict(name=rng.choice([b'.note.c14', b'.note.gnu.build-id', b'.note.ABI-tag', b'.note']), type=7, body=c['enc'][t]))
+        glue = tuple(range(first + 1, first + k)) if c['glued'] else ()
+        inner_at = None
+        if c['inner']:
+            pre, post = rnd_bytes(rng, rng.choice([0, 1, 4, 13])), rnd_bytes(rng, rng.choice([0, 0, 3, 12, 40]))
+            inner_at = len(secs)
+            secs.append(dict(name=b'.rodata', type=1, body=pre + c['enc'][k] + post))
+        if rng.random() < 0.3:
+            secs.append(dict(name=b'.bss', type=8, body=None, size=rnd_uint(rng, 16)))
+        segs = []
+        if rng.random() < 0.5:
+            segs.append(dict(p_type=1, p_offset=rnd_uint(rng, 16), p_filesz=rnd_uint(rng, 16)))
+        for t in range(k):
+            qs.append({'t': 'sec', 'i': ('s', first + t), 'notes': c['lists'][t]['notes'], 'tail': c['lists'][t]['tail']})
+            if rng.random() < 0.8:
+                segs.append(dict(p_type=4, sec=first + t))
+                qs.append({'t': 'segin', 'j': len(segs) - 1, 'i': ('s', first + t), 'pre': 0, 'notes': c['lists'][t]['notes'], 'tail': c['lists'][t]['tail']})
+        if c['glued']:
+            segs.append(dict(p_type=4, sec=first, filesz=sum(len(c['enc'][t]) for t in range(k))))
+            qs.append({'t': 'segadj', 'j': len(segs) - 1, 'is': [('s', first + t) for t in range(k)],
+                       'notes': sum((l['notes'] for l in c['lists']), []), 'tail': c['lists'][-1]['tail']})
+        if c['inner']:
+            segs.append(dict(p_type=4, sec=inner_at, pre=len(pre), filesz=len(c['enc'][k])))
+            qs.append({'t': 'segin', 'j': len(segs) - 1, 'i': ('s', inner_at), 'pre': len(pre), 'notes': c['inner']['notes'], 'tail': c['inner']['tail']})
+        if rng.random() < 0.5:
+            segs.insert(rng.randrange(len(segs) + 1), None)             # a non-note segment somewhere in the table
+        # resolve: insertion shifts the segment indices after it
+        shift_at = segs.index(None) if None in segs else None
+        if shift_at is not None:
+            segs[shift_at] = dict(p_type=rng.choice([1, 6, 0x6474e551]), p_offset=rnd_uint(rng, 12), p_filesz=rnd_uint(rng, 12))
+            for q in qs:
+                if 'j' in q and q['j'] >= shift_at:
+                    q['j'] += 1
+        ast, idx = make_ast(rng, cfg, secs, segs, glue=glue)
+        for q in qs:
+            if 'i' in q: q['i'] = idx[q['i'][1]]
+            if 'is' in q: q['is'] = [idx[x[1]] for x in q['is']]
+        # objects without `iter_notes`, indices out of range: correspondence only
+        r = rng.random()
+        if r < 0.25:
+            qs.append({'t': 'any', 'i': rng.choice([0, ast['shstrndx'], len(ast['sections']), len(ast['sections']) + 3]), 'notes': [], 'tail': ''})
+        elif r < 0.4 and shift_at is not None:
+            qs.append({'t': 'any', 'j': shift_at, 'notes': [], 'tail': ''})
+        freqs.append({'p': 'C14', 'k': 'file', 'ast': ast, 'tail': rng.choice([0, 0, 7]), 'q': qs})
+    replies = ask_all(ctx, freqs)
+    for c, rq, r in zip(cases, freqs, replies):
+        fatal(r, rq)
+        if 'bytes' not in r:
+            ctx.out.count('file:not-encodable')
+            continue
+        data = bytes.fromhex(r['bytes'])
+        ctx.out.case({'cfg': c['cfg'], 'lists': c['lists'], 'inner': c['inner'], 'n': len(data), 'sha': hx(data[-48:])},
+                     nontrivial=any(l['notes'] for l in c['lists']))
+        ctx.out.count('file:wfZ' if r['wf'] else 'file:not-wf')
+        ctx.out.count('file:notesecs=%d%s' % (len(c['lists']), '/glued' if c['glued'] else ''))
+        for sc in rq['ast']['sections']:
+            h = dict(sc['hdr']['r'])
+            if h['sh_type'] == 7:
+                ctx.out.count('file:sh_addralign=%d' % h['sh_addralign'])
+        for sg in rq['ast']['segments']:
+            h = dict(sg['r'])
+            if h['p_type'] == 4:
+                ctx.out.count('file:p_align=%d' % h['p_align'])
+        for qi, (q, a) in enumerate(zip(rq['q'], r['q'])):
+            kind, nn = ('sec', q['i']) if 'i' in q and q['t'] in ('sec', 'any') else ('seg', q['j'])
+            impl = impl_file(data, kind, nn)
+            dom = bool(r['wf'] and a['dom'])
+            ctx.out.count('file:%s:%s' % (q['t'], 'theorem-domain' if dom else 'model-only'))
+            if q['t'] == 'any':
+                ctx.out.count('file:any:' + ('ok' if 'ok' in impl else impl['err']))
+            full = {'req': rq, 'qi': qi, 'file': r['bytes']}
+            if dom and impl != {'ok': a['expect']}:
+                ctx.out.violation('property', 'file', full, view=q['t'], expect=a['expect'], got=impl, model=a['model'])
+            elif impl != a['model']:
+                ctx.out.violation('correspondence', 'file', full, view=q['t'], got=impl, model=a['model'])
+
+
+def gen_edge(rng, cfg):
+    notes = [gen_note(rng, cfg, allow_bad=False) for _ in range(rng.choice([0, 1, 1, 2, 3]))]
+    mode = rng.choice(['bare', 'bare', 'trunc', 'nonul', 'cut'])
+    e = {'notes': notes, 'mode': mode}
+    if mode == 'bare':
+        e['last'] = gen_note(rng, cfg, allow_bad=False)
+        e['rest'] = hx(rnd_bytes(rng, rng.choice([0, 0, 0, 1, 3, 8, 20])))
+        # 0: the extent ends with the unpadded note; 1: right after the header; k: header + k-1 bytes
+        e['extra'] = rng.choice([0, 0, 0, 1, 2, 4, 5, 9, 13, 17, 30, 60, 200])
+        e['eof'] = e['rest'] == '' and rng.random() < 0.7
+    elif mode == 'trunc':
+        e['rest'] = hx(rnd_bytes(rng, rng.choice([0, 1, 3, 4, 7, 8, 11, 11])))
+        e['extra'] = rng.choice([0, 0, 1, 5, 12, 100])
+        e['eof'] = True
+    elif mode == 'cut':
+        owner = gen_owner(rng)
+        typ = gen_type(rng)
+        if cfg['core'] and typ in (3, NT_FILE): typ = 1
+        if not cfg['core'] and owner == b'GNU' and typ in (1, 3, 4, 5): typ = rng.choice([2, 6, 0x100])
+        have = rng.choice([0, 1, 3, 4, 7, 16])
+        e.update(owner=None if owner is None else hx(owner), type=typ, descsz=have + rng.choice([0, 1, 2, 3, 4, 5, 100, 0x7fffffff]),
+                 rest=hx(rnd_bytes(rng, have)), eof=True)
+        e['extra'] = rng.choice([0, 0, 1, 4, 12, 13, 20, 24, 40])
+    else:
+        nsz = rng.choice([1, 2, 3, 4, 5, 8, 9, 16])
+        disk = (nsz + 3) & ~3
+        e.update(namesz=nsz, descsz=rng.choice([0, 1, 4, 9, rnd_uint(rng, 32)]), type=gen_type(rng))
+        if rng.random() < 0.5:                                          # the name runs into the end of the file
+            e['rest'] = hx(nonul(rng, rng.randrange(0, disk)))
+            e['eof'] = True
+        else:                                                           # complete field, no terminator
+            e['rest'] = hx(nonul(rng, disk) + rnd_bytes(rng, rng.choice([0, 4, 16])))
+            e['eof'] = False
+        e['extra'] = rng.choice([0, 0, 3, 8, 40])
+    return e
+
+
+def edge_req(cfg, e, **kw):
+    rq = {'p': 'C14', 'k': 'edge', 'cfg': lean_cfg(cfg)}
+    rq.update({k: v for k, v in e.items() if k != 'eof'})
+    rq.update(kw)
+    return rq
+
+
+def run_edge(ctx):
+    rng = ctx.rng('edge')
+    n = ctx.budget(320, 10000)
+    cases = [{'cfg': gen_cfg(rng)} for _ in range(n)]
+    for c in cases:
+        c['edge'] = gen_edge(rng, c['cfg'])
+    encs = ask_all(ctx, [edge_req(c['cfg'], c['edge']) for c in cases])
+    runs = []
+    for c, e in zip(cases, encs):
+        fatal(e, c)
+        secs = []
+        if rng.random() < 0.5:
+            secs.append(dict(name=b'.fill', type=1, body=rnd_bytes(rng, rng.choice([1, 5, 16]))))
+        at = len(secs)
+        secs.append(dict(name=b'.note.c14', type=7, body=bytes.fromhex(e['bytes']), size=e['size']))
+        if rng.random() < 0.3:
+            secs.append(dict(name=b'.after', type=1, body=rnd_bytes(rng, rng.choice([1, 12, 40]))))
+        segs = [dict(p_type=4, sec=at, filesz=e['size'])]
+        if rng.random() < 0.4:
+            segs.insert(0, dict(p_type=1, p_offset=0, p_filesz=rnd_uint(rng, 12)))
+        ast, idx = make_ast(rng, c['cfg'], secs, segs, last=at if c['edge']['eof'] else None)
+        rq = edge_req(c['cfg'], c['edge'], k='edge_run', ast=ast, tail=0, i=idx[at], j=len(segs) - 1)
+        del rq['cfg']
+        runs.append(rq)
+    replies = ask_all(ctx, runs)
+    for c, rq, r in zip(cases, runs, replies):
+        fatal(r, rq)
+        if 'bytes' not in r:
+            ctx.out.count('edge:not-encodable')
+            continue
+        data = bytes.fromhex(r['bytes'])
+        impl_sec, impl_seg = impl_file(data, 'sec', rq['i']), impl_file(data, 'seg', rq['j'])
+        dom = bool(r['wf'] and r['dom'])
+        ctx.out.case({'cfg': c['cfg'], 'edge': c['edge'], 'n': len(data)})
+        ctx.out.count('edge:%s:%s' % (c['edge']['mode'], 'theorem-domain' if dom else 'model-only'))
+        ctx.out.count('edge:result:' + ('ok' if 'ok' in impl_sec else impl_sec['err']))
+        if c['edge']['mode'] == 'bare' and dom:
+            ctx.out.count('edge:bare:' + ('ends-with-unpadded-note' if c['edge']['extra'] == 0 else 'header+%s' % min(c['edge']['extra'] - 1, 16)))
+        full = {'req': rq, 'file': r['bytes']}
+        exp = r['expect']
+        if dom and impl_sec != exp:
+            ctx.out.violation('property', 'edge', full, view='section', expect=exp, got=impl_sec, model=r['model'])
+        elif dom and impl_seg != exp:
+            ctx.out.violation('property', 'edge', full, view='segment', expect=exp, got=impl_seg, model=r['model_seg'])
+        elif impl_sec != r['model']:
+            ctx.out.violation('correspondence', 'edge', full, view='section', got=impl_sec, model=r['model'])
+        elif impl_seg != r['model_seg']:
+            ctx.out.violation('correspondence', 'edge', full, view='segment', got=impl_seg, model=r['model_seg'])
+
+
 def run(ctx):
     run_ast(ctx)
     run_raw(ctx)
     run_stabs(ctx)
+    run_file(ctx)
+    run_edge(ctx)
 
 
 # ----------------------------------------------------------------------------- replay
@@ -467,6 +809,27 @@ def replay(ctx, payload):
         impl = impl_direct(data, case['cfg'], case['offset'], case['size'])
         r = ctx.driver.ask({'p': 'C14', 'k': 'raw', 'cfg': case['cfg'], 'hex': hx(data), 'offset': case['offset'], 'size': case['size']})
         res.update(impl=impl, model=r.get('model'), fails=(impl != r.get('model')))
+        return res
+    if stream == 'file':
+        rq = case['req']
+        r = ctx.driver.ask(rq)
+        data = bytes.fromhex(r['bytes'])
+        q, a = rq['q'][case['qi']], r['q'][case['qi']]
+        kind, nn = ('sec', q['i']) if 'i' in q and q['t'] in ('sec', 'any') else ('seg', q['j'])
+        impl = impl_file(data, kind, nn)
+        fails = (impl != {'ok': a['expect']}) if v['kind'] == 'property' else (impl != a['model'])
+        res.update(impl=impl, expect=a.get('expect'), model=a.get('model'), same_bytes=(r['bytes'] == case['file']), fails=fails)
+        return res
+    if stream == 'edge':
+        rq = case['req']
+        r = ctx.driver.ask(rq)
+        data = bytes.fromhex(r['bytes'])
+        impl_sec, impl_seg = impl_file(data, 'sec', rq['i']), impl_file(data, 'seg', rq['j'])
+        if v['kind'] == 'property':
+            fails = impl_sec != r['expect'] or impl_seg != r['expect']
+        else:
+            fails = impl_sec != r['model'] or impl_seg != r['model_seg']
+        res.update(impl_section=impl_sec, impl_segment=impl_seg, expect=r.get('expect'), model=r.get('model'), fails=fails)
         return res
     data = bytes.fromhex(case['file'])
     cfg = lean_cfg(case['cfg'])
